@@ -93,13 +93,18 @@ Definition set_background (v : Z) (d : desc) : res Z :=
   | Some color => ROk (Z.lor (Z.lor (Z.land v (Z.lnot BG_MASK)) (Z.shiftl color BG_SHIFT)) (snd cf))
   end).
 
+(* if not self.__value & (_FG_TRUE_COLOR | _BG_TRUE_COLOR): self.__value &= ~_HIGH_TRUE_COLOR *)
+Definition drop_marker (v : Z) : Z :=
+  if Z.land v (Z.lor FG_TRUE_COLOR BG_TRUE_COLOR) =? 0 then Z.land v (Z.lnot HIGH_TRUE_COLOR) else v.
+
 (* AttrSpec.__init__ *)
 Definition attrspec_new (fg : list part) (bg : desc) (colors : Z) : res Z :=
   if negb (valid_depth colors) then RErr AttrSpecError 6
   else
     rbind (set_foreground (init_value colors) fg) (fun v1 =>
     rbind (set_background v1 bg) (fun v2 =>
-    if colors <? attr_colors v2 then RErr AttrSpecError 5 else ROk v2)).
+    let v3 := drop_marker v2 in
+    if colors <? attr_colors v3 then RErr AttrSpecError 5 else ROk v3)).
 
 (* _BASIC_COLORS[n] for n >= 0 *)
 Definition basic_name (n : Z) : result desc :=
@@ -134,6 +139,8 @@ Definition hex_rgb (n : Z) : Z * Z * Z := (n / 65536, (n / 256) mod 256, n mod 2
 (* AttrSpec.get_rgb_values, foreground half and background half *)
 Definition rgb_fg (v : Z) : result (option (Z * Z * Z)) :=
   if negb (attr_foreground_basic v || attr_foreground_high v || attr_foreground_true v) then Ok None
+  else if attr_foreground_basic v then
+    bind (get_index BASIC_COLOR_VALUES (attr_foreground_number v)) (fun t => Ok (Some t))
   else if attr_colors v =? 88 then
     if 88 <=? attr_foreground_number v then Err ValueError
     else bind (get_index COLOR_VALUES_88 (attr_foreground_number v)) (fun t => Ok (Some t))
@@ -142,6 +149,8 @@ Definition rgb_fg (v : Z) : result (option (Z * Z * Z)) :=
 
 Definition rgb_bg (v : Z) : result (option (Z * Z * Z)) :=
   if negb (attr_background_basic v || attr_background_high v || attr_background_true v) then Ok None
+  else if attr_background_basic v then
+    bind (get_index BASIC_COLOR_VALUES (attr_background_number v)) (fun t => Ok (Some t))
   else if attr_colors v =? 88 then
     if 88 <=? attr_background_number v then Err ValueError
     else bind (get_index COLOR_VALUES_88 (attr_background_number v)) (fun t => Ok (Some t))
